@@ -348,7 +348,8 @@ def ref_surface_points(d):
 
 def build_surface(d):
     from geomdl import BSpline, NURBS
-    s = NURBS.Surface() if d.get('w') else BSpline.Surface()
+    kw = dict(normalize_kv=False) if d.get('raw') else {}
+    s = NURBS.Surface(**kw) if d.get('w') else BSpline.Surface(**kw)
     s.degree_u = d['pu']; s.degree_v = d['pv']
     s.ctrlpts_size_u = d['su']; s.ctrlpts_size_v = d['sv']
     s.ctrlpts = qpts(d['P'])
@@ -362,7 +363,8 @@ def build_surface(d):
 
 def build_curve(d):
     from geomdl import BSpline, NURBS
-    c = NURBS.Curve() if d.get('w') else BSpline.Curve()
+    kw = dict(normalize_kv=False) if d.get('raw') else {}
+    c = NURBS.Curve(**kw) if d.get('w') else BSpline.Curve(**kw)
     c.degree = d['p']
     c.ctrlpts = qpts(d['P'])
     if d.get('w'):
@@ -551,6 +553,29 @@ def gen(rng, tier):
         out.append(Case('fcpc', "fcpc %d %s %s %s" % (p, show_list(d['kv']), show_pts(d['P']), fr(d['u'])), d))
     for k in range(40 if quick else 500):
         d = surf_data(rng, maxp=4)
+        d['u'] = G.param(rng, d['ku'], d['pu'], d['su']); d['v'] = G.param(rng, d['kv'], d['pv'], d['sv'])
+        su, sv = d['su'], d['sv']
+        if d.get('w'):
+            net = [[[c * d['w'][i * sv + j] for c in d['P'][i * sv + j]] + [d['w'][i * sv + j]] for j in range(sv)] for i in range(su)]
+        else:
+            net = [[d['P'][i * sv + j] for j in range(sv)] for i in range(su)]
+        out.append(Case('fcps', "fcps %d %d %s %s %d %d %s %s %s" % (d['pu'], d['pv'], show_list(d['ku']), show_list(d['kv']), su, sv,
+                                                                   show_pts2(net), fr(d['u']), fr(d['v'])), d))
+    # ---- find_ctrlpts on shapes that KEEP an un-normalised knot range (normalize_kv=False): parameters outside [0, 1] are ordinary
+    # parameters of such a domain
+    for k in range(14 if quick else 160):
+        p = rng.randint(1, 4)
+        kv, n = G.knots(rng, p, allow_range=False)
+        a, b = F(rng.choice([-3, -1, 2, 5])), F(rng.choice([2, 3, F(7, 2)]))
+        kv = [a + b * x for x in kv]
+        u = G.param(rng, kv, p, n)
+        d = dict(p=p, kv=kv, n=n, u=u, P=distinct_points(rng, n, rng.choice([2, 3])), raw=True)
+        out.append(Case('fcpc', "fcpc %d %s %s %s" % (p, show_list(d['kv']), show_pts(d['P']), fr(d['u'])), d))
+    for k in range(10 if quick else 120):
+        d = surf_data(rng, maxp=3)
+        au, bu, av, bv = F(rng.choice([-3, 2])), F(rng.choice([2, 3])), F(rng.choice([-1, 4])), F(rng.choice([F(5, 2), 2]))
+        d['ku'] = [au + bu * x for x in d['ku']]; d['kv'] = [av + bv * x for x in d['kv']]
+        d['raw'] = True
         d['u'] = G.param(rng, d['ku'], d['pu'], d['su']); d['v'] = G.param(rng, d['kv'], d['pv'], d['sv'])
         su, sv = d['su'], d['sv']
         if d.get('w'):
